@@ -227,6 +227,12 @@ DForEachKey(tg, stop) ==
 DCopyToMem(tg) ==
   /\ InTx /\ Put("md", cur[tg]) /\ Ok([op |-> "dcopy", tg |-> tg, res |-> Pairs(cur[tg])])
 
+\* ------------------------------------------------------------------ moves between accounts
+\* The stored array / dictionary is moved into the storage of a second account and back again (two
+\* transfers with removal, each to another owner): the contents are what they were.
+AMove == /\ InTx /\ Same /\ Ok([op |-> "amove", res |-> Len(cur.s)])
+DMove == /\ InTx /\ Same /\ Ok([op |-> "dmove", res |-> Cardinality(DOMAIN cur.d)])
+
 \* ------------------------------------------------------------------ bulk fills (deep histories only)
 \* A loop of n appends / inserts / removals in one step: takes the containers across the size
 \* thresholds of the implementation's storage layout without changing what the model says.
@@ -298,6 +304,7 @@ Next == \/ \E md \in Modes : Begin(md)
         \/ \E tg \in Tgts : (IF AFull THEN ArrayNext(tg) ELSE ArrayFeed(tg))
         \/ \E tg \in DTgts : DictNext(tg)
         \/ (COps /\ CNext)
+        \/ ("s" \in Tgts /\ AMove) \/ ("d" \in DTgts /\ DMove)
 Spec == Init /\ [][Next]_vars
 
 \* ------------------------------------------------------------------ properties of the design
@@ -314,7 +321,7 @@ FailureRestores == [][(last'.op = "abort" \/ (phase = "tx" /\ phase' = "idle" /\
 \* functions that only read or return a new array never change the stored containers
 Readers == {"get", "slice", "reverse", "concat", "filter", "map", "copy", "contains", "firstIndex", "length",
             "iterate", "cget", "ccontains", "cfirstIndex", "citerate", "cfilter", "ctoVar",
-            "dget", "dcontainsKey", "dlength", "dkeys", "dvalues", "diterate", "dforEachKey", "dcopy"}
+            "amove", "dmove", "dget", "dcontainsKey", "dlength", "dkeys", "dvalues", "diterate", "dforEachKey", "dcopy"}
 ReadersArePure == [][(last'.op \in Readers /\ phase' = "tx") =>
                         (cur'.s = cur.s /\ cur'.d = cur.d /\ cur'.c = cur.c)]_vars
 
